@@ -273,3 +273,50 @@ def run(c, prog, ctx):
            arrs == {"array{address::AddressParams::LIQUID, address::AddressParams::ELEMENTS, address::AddressParams::LIQUID_TESTNET}"}
            or any(set(re.findall(r"address::AddressParams::(\w+)", a)) == {"LIQUID", "ELEMENTS", "LIQUID_TESTNET"} and a.count("address::AddressParams::") == 3 for a in arrs),
            "network arrays %s" % sorted(arrs), ffs.where(), ffs.path)
+    _decoder_slicing(c, prog)
+
+
+def _decoder_slicing(c, prog):
+    """R6: which characters of the string each stage of the blech32 reader looks at: HRP = before the separator, data = after it;
+    the checksum is the last CHECKSUM_LENGTH characters; the witness version is the first data character and is removed before
+    the padding and length rules run; bytes are converted from exactly the remaining data."""
+    D = "blech32::decode::"
+    IDX = "core::slice::index::<impl std::ops::Index<I> for [T]>::index"
+    f = prog.fn(D + "UncheckedHrpstring::<'s>::new")
+    t = show(Prov(f.body).local(0), -40)
+    SP = "core::str::split_at(arg1, %scheck_characters(arg1))" % D
+    want = ("std::result::Result::Ok{%sUncheckedHrpstring::UncheckedHrpstring{bech32::Hrp::parse(%s.0), %s(core::str::as_bytes(%s.1), std::ops::RangeFrom::RangeFrom{1})}}" % (D, SP, IDX, SP))
+    c.inst("R6.decoder-slicing", "UncheckedHrpstring::new: hrp = s[..sep], data = s[sep+1..]", want in t, "returns %s" % t[-420:], f.where(), f.path)
+    f = prog.fn(D + "UncheckedHrpstring::<'s>::remove_checksum")
+    t = show(Prov(f.body).local(0), -40)
+    want = ("%sCheckedHrpstring::CheckedHrpstring{%sUncheckedHrpstring::hrp(arg1), %s(arg1.data, std::ops::RangeTo::RangeTo{(core::slice::len(arg1.data) SubWithOverflow bech32::Checksum::CHECKSUM_LENGTH).0})}" % (D, D, IDX))
+    c.inst("R6.decoder-slicing", "remove_checksum: data without its last CHECKSUM_LENGTH characters, hrp kept", t.replace("arg1.hrp", D + "UncheckedHrpstring::hrp(arg1)") == want, "returns %s" % t, f.where(), f.path)
+    for ty in ("UncheckedHrpstring", "CheckedHrpstring", "SegwitHrpstring"):
+        f = prog.fn(D + ty + "::<'s>::hrp")
+        c.inst("R6.decoder-slicing", ty + "::hrp", show(Prov(f.body).local(0), -9) == "arg1.hrp", "", f.where(), f.path)
+    f = prog.fn(D + "SegwitHrpstring::<'s>::witness_version")
+    c.inst("R6.decoder-slicing", "SegwitHrpstring::witness_version", show(Prov(f.body).local(0), -9) == "arg1.witness_version", "", f.where(), f.path)
+    for ty in ("CheckedHrpstring", "SegwitHrpstring"):
+        f = prog.fn(D + ty + "::<'s>::byte_iter")
+        t = show(Prov(f.body).local(0), -40)
+        c.inst("R6.decoder-slicing", ty + "::byte_iter converts exactly self.data",
+               t == "%sByteIter::ByteIter{bech32::Fe32IterExt::fes_to_bytes(%sAsciiToFe32Iter::AsciiToFe32Iter{arg1.data})}" % (D, D), "returns %s" % t, f.where(), f.path)
+    # validate_segwit: version = first data character, removed once, before both validations; the result carries the stripped data
+    f = prog.fn(D + "CheckedHrpstring::<'s>::validate_segwit")
+    b = f.body
+    asg = [e for e in effects(b) if e["kind"] == "assign" and show(e["target"], -9) == "arg1.data"]
+    strip_ok = len(asg) == 1 and re.match(r"^%s\(.*, std::ops::RangeFrom::RangeFrom\{1\}\)$" % re.escape(IDX), show(asg[0]["value"], -40)) is not None
+    calls = {callee_name(t).split("::")[-1]: bi for bi, t in b.calls(lambda t: callee_name(t).split("::")[-1] in ("validate_padding", "validate_witness_program_length"))}
+    order_ok = strip_ok and len(calls) == 2 and all(b.dominates(asg[0]["bb"], bi) for bi in calls.values())
+    rt = show(Prov(b).local(0), -40)
+    ok_ctor = re.search(r"Ok\{%sSegwitHrpstring::SegwitHrpstring\{(%sCheckedHrpstring::hrp\(arg1\)|arg1\.hrp), bech32::Fe32::from_char\((.*?)\[0\]\), " % (re.escape(D), re.escape(D)), rt) is not None
+    g = Guards(b)
+    okbs = [bi for (bi, si, kind, pay) in b.defs().get(0, []) if kind == "assign" and "SegwitHrpstring" in show(Prov(b)._rvalue(pay["rv"], True), -9)] if hasattr(b, "defs") else []
+    guarded = False
+    for bi in okbs:
+        cd = cond_desc(b, g.conds(bi), keep_try=True) if "keep_try" in cond_desc.__code__.co_varnames else cond_desc(b, g.conds(bi))
+        ds = " ".join(d for d, l in cd)
+        guarded = "validate_padding" in ds and "validate_witness_program_length" in ds
+    c.inst("R6.decoder-slicing", "validate_segwit: version = data[0], stripped once before the padding and length rules, both rules guard Ok",
+           order_ok and ok_ctor and guarded, "strip %s; calls %s; constructor found %s; Ok guarded by both %s" % (strip_ok, sorted(calls), ok_ctor, guarded), f.where(), f.path)
+    c.floor("R6.decoder-slicing", 9)
